@@ -58,7 +58,10 @@ class Sidecar:
         self.fn = {}       # name -> (retname, text)
         self.loop = {}     # (fn, n) -> text
         self.proof = {}    # (fn, where, n) -> text
+        self.closure = {}  # (fn, n) -> spec text for the n-th closure of the function
         self.attr = {}     # item key -> text
+        self.params = {}   # fn -> contract-side parameter names (positional binding to the real signature)
+        self.woven = {}    # fn -> clause text as woven (after positional renaming)
         for path in paths:
             self._load(Path(path))
 
@@ -79,8 +82,15 @@ class Sidecar:
                     ret = "r"
                     if " -> " in hdr:
                         hdr, ret = hdr.rsplit(" -> ", 1)
+                    params = None
+                    mm = re.match(r"(.*?)\((.*)\)\s*$", hdr.strip())
+                    if mm:
+                        hdr = mm.group(1)
+                        params = [x.strip() for x in mm.group(2).split(",") if x.strip()]
                     cur = []
                     self.fn[hdr.strip()] = (ret.strip(), cur)
+                    if params is not None:
+                        self.params[hdr.strip()] = params
                 elif kind == "loop":
                     hdr = line[4:].split(None, 1)[1]
                     f, n = hdr.rsplit(None, 1)
@@ -91,6 +101,10 @@ class Sidecar:
                     if not m:
                         raise Undecided(f"bad sidecar header: {line}")
                     cur = self.proof.setdefault((m.group(1).strip(), m.group(2), int(m.group(3) or 0)), [])
+                elif kind == "closure":
+                    hdr = line[4:].split(None, 1)[1]
+                    f, n = hdr.rsplit(None, 1)
+                    cur = self.closure.setdefault((f.strip(), int(n)), [])
                 elif kind == "attr":
                     cur = self.attr.setdefault(line[4:].split(None, 1)[1].strip(), [])
                 elif kind == "end":
@@ -206,10 +220,113 @@ def W(s):
     return f"{W_OPEN}{s}{W_CLOSE}"
 
 
+def actual_params(src: Source, fn_item):
+    """Names of the non-self parameters of a function, in order."""
+    body_open = fn_item.body[0]
+    ts = [t for t in src.toks if fn_item.head_start <= t.pos < body_open and t.kind not in R.TRIVIA]
+    i = next(k for k, t in enumerate(ts) if t.kind == R.ID and t.text == "fn")
+    while ts[i].text != "(":
+        if ts[i].text == "<":      # skip generics
+            d = 0
+            while True:
+                if ts[i].text == "<": d += 1
+                elif ts[i].text == ">": d -= 1
+                i += 1
+                if d == 0: break
+            continue
+        i += 1
+    close = R.match_close(ts, i)
+    names, cur, depth = [], [], 0
+    for t in ts[i + 1:close] + [R.Tok(R.P, ",", 0)]:
+        if t.kind == R.P and t.text in ("(", "[", "<", "{"): depth += 1
+        elif t.kind == R.P and t.text in (")", "]", ">", "}"): depth -= 1
+        if t.kind == R.P and t.text == "," and depth == 0:
+            if cur:
+                pat = []
+                for u in cur:
+                    if u.kind == R.P and u.text == ":": break
+                    pat.append(u)
+                ids = [u.text for u in pat if u.kind == R.ID and u.text not in ("mut", "ref")]
+                if ids and ids[-1] != "self":
+                    names.append(ids[-1])
+            cur = []
+        else:
+            cur.append(t)
+    return names
+
+
+def closures_in(src: Source, lo, hi):
+    """Closures in src[lo:hi] in source order: (offset after the parameter bars, body start, body end, body_is_block)."""
+    ts = [t for t in src.toks if lo <= t.pos < hi and t.kind not in R.TRIVIA]
+    out = []
+    i = 0
+    while i < len(ts):
+        t = ts[i]
+        starts = t.kind == R.P and t.text in ("|", "||") and (i == 0 or ts[i - 1].text in ("(", ",", "=", "move", "{", ";", "return", "=>"))
+        if not starts:
+            i += 1; continue
+        if t.text == "||":
+            pe = i
+        else:
+            pe = i + 1
+            depth = 0
+            while not (ts[pe].text == "|" and depth == 0):
+                if ts[pe].text in ("(", "[", "<"): depth += 1
+                elif ts[pe].text in (")", "]", ">"): depth -= 1
+                pe += 1
+        b = pe + 1
+        if ts[b].text == "->":
+            raise Undecided("closure with an explicit return type: not handled by the weaver")
+        if ts[b].text == "{":
+            c = R.match_close(ts, b)
+            out.append((ts[pe].end, ts[b].pos, ts[c].end, True))
+            i = b + 1
+            continue
+        k, depth = b, 0
+        while k < len(ts):
+            u = ts[k]
+            if u.kind == R.P and u.text in ("(", "[", "{"): depth += 1
+            elif u.kind == R.P and u.text in (")", "]", "}"):
+                if depth == 0: break
+                depth -= 1
+            elif u.kind == R.P and u.text in (",", ";") and depth == 0:
+                break
+            k += 1
+        out.append((ts[pe].end, ts[b].pos, ts[k - 1].end, False))
+        i = b
+    return out
+
+
+def rename_idents(text, mapping):
+    if not mapping:
+        return text
+    toks = R.tokenize(text)
+    out = []
+    prev = None
+    for t in toks:
+        if t.kind == R.ID and t.text in mapping and not (prev is not None and prev.text in (".", "::")):
+            out.append(mapping[t.text])
+        else:
+            out.append(t.text)
+        if t.kind not in R.TRIVIA:
+            prev = t
+    return "".join(out)
+
+
 def weave_fn(src: Source, fn_item, key, side: Sidecar, used: set):
     """Return list of insertions (offset, text) for one function."""
     ins = []
     body_open, body_close = fn_item.body
+    # positional binding of the contract's parameter names to the real signature (a renamed parameter is harmless)
+    mapping = {}
+    if key in side.params:
+        act = actual_params(src, fn_item)
+        if len(act) != len(side.params[key]):
+            raise Undecided(f"lost anchor: `{key}` has {len(act)} parameters, its contract expects {len(side.params[key])}")
+        mapping = {c: a for c, a in zip(side.params[key], act) if c != a}
+    _txt = Sidecar.txt
+    def txt_of(lines):
+        return rename_idents(_txt(lines), mapping)
     if key in side.fn:
         used.add(("fn", key))
         ret, lines = side.fn[key]
@@ -229,7 +346,8 @@ def weave_fn(src: Source, fn_item, key, side: Sidecar, used: set):
             last = [t for t in ts if t.pos < sig_end][-1]
             ins.append((arrow.end, " " + W(f"({ret}: ")))
             ins.append((last.end, W(")")))
-        clause = Sidecar.txt(lines)
+        clause = txt_of(lines)
+        side.woven[key] = clause
         if clause.strip():
             ins.append((body_open, W("\n" + clause + "\n")))
     loops = R.loops_in(src.src, body_open + 1, body_close, toks=src.toks)
@@ -238,11 +356,26 @@ def weave_fn(src: Source, fn_item, key, side: Sidecar, used: set):
         used.add(("loop", f, n))
         if n < 1 or n > len(loops):
             raise Undecided(f"lost anchor: loop {n} of {key} (function has {len(loops)} loops)")
-        ins.append((loops[n - 1][1], W("\n" + Sidecar.txt(lines) + "\n")))
+        ins.append((loops[n - 1][1], W("\n" + txt_of(lines) + "\n")))
+    closures = None
+    for (f, n), lines in side.closure.items():
+        if f != key: continue
+        used.add(("closure", f, n))
+        if closures is None:
+            closures = closures_in(src, body_open + 1, body_close)
+        if n < 1 or n > len(closures):
+            raise Undecided(f"lost anchor: closure {n} of {key} (function has {len(closures)} closures)")
+        params_end, b0, b1, is_block = closures[n - 1]
+        spec = txt_of(lines)
+        if is_block:
+            ins.append((params_end, W(" " + spec + " ")))
+        else:
+            ins.append((params_end, W(" " + spec + " {")))
+            ins.append((b1, W("}")))
     for (f, where, n), lines in side.proof.items():
         if f != key: continue
         used.add(("proof", f, where, n))
-        txt = W("\n" + Sidecar.txt(lines) + "\n")
+        txt = W("\n" + txt_of(lines) + "\n")
         if where == "entry":
             ins.append((body_open + 1, txt))
         elif where == "end":
@@ -367,6 +500,7 @@ def extract_items(unit, side: Sidecar):
         clause = ""
         if key in side.fn:
             used.add(("fn", key))
+            side.woven[key] = Sidecar.txt(side.fn[key][1])
             clause = W("\n" + Sidecar.txt(side.fn[key][1]) + "\n")
         entry = ""
         if (key, "entry", 0) in side.proof:
@@ -386,6 +520,9 @@ def extract_items(unit, side: Sidecar):
     for (f, n) in side.loop:
         if ("loop", f, n) not in used:
             raise Undecided(f"lost anchor: loop contract for `{f}` #{n} has no function to attach to")
+    for (f, n) in side.closure:
+        if ("closure", f, n) not in used:
+            raise Undecided(f"lost anchor: closure contract for `{f}` #{n} has no function to attach to")
     for (f, w, n) in side.proof:
         if ("proof", f, w, n) not in used:
             raise Undecided(f"lost anchor: proof block for `{f}` has no function to attach to")
@@ -542,6 +679,10 @@ def run_verus_unit(unit, tier, prop):
         raise Undecided(f"verus did not verify the generated file for unit {unit['name']} "
                         f"(type error, unsupported construct or tool failure):\n{msg}")
     vr = data["verification-results"]
+    if vr.get("encountered-error") and vr.get("verified", 0) + vr.get("errors", 0) == 0:
+        msg = "\n".join(d_.get("rendered", d_.get("message", "")) for d_ in errors[:4])
+        raise Undecided(f"the generated file for unit {unit['name']} does not compile under verus "
+                        f"(a contract names something the code no longer has, or an unsupported construct):\n{msg[:3000]}")
     if vr.get("encountered-vir-error"):
         msg = "\n".join(d_.get("rendered", d_.get("message", "")) for d_ in errors[:5])
         raise Undecided(f"verus rejected the generated file for unit {unit['name']}:\n{msg}")
@@ -659,7 +800,7 @@ def vacuity_pass(unit, text, side, fnlocs, rlimit):
 
     def one(idx_k):
         idx, k = idx_k
-        clause = Sidecar.txt(side.fn[k][1])
+        clause = side.woven.get(k, Sidecar.txt(side.fn[k][1]))
         marker = W("\n" + clause + "\n")
         if marker not in text:
             return k, "nomarker"
